@@ -33,7 +33,7 @@ STUBS = [
     'min_value/max_value/default are bounded to [-3, 3] and parsed ints to sign + <=2 digits: falcon formats the bound into '
     'the error message, which realizes it (finite enumeration on error paths only)',
 ]
-OUTSIDE = ['get_param_as_float / as_uuid / as_date / as_datetime / as_json conversions (C or float parsing realizes input)',
+OUTSIDE = ['get_param_as_uuid / as_json conversions and float/date getters beyond their finite tables (C or float parsing realizes input)',
            'query strings longer than 4 characters except the structured long patterns', 'the Cython parse_query_string',
            'parameter names outside the {a, g, %, +} alphabet']
 BUDGET = {'quick': 330, 'thorough': 900}
@@ -485,6 +485,34 @@ def date_case(asgi, qi, kb, csv, required, use_default, which):
     return 1
 
 
+FLOAT_QS = ['x=1.5', 'x=-2', 'x=0', 'x=0.0', 'x=%2B1', 'x=abc', 'x=7&x=0.5', 'x=-0.5', 'x=1e0']
+FLOAT_BOUNDS = (None, -1.0, 0, 0.0, 1.5)
+
+
+def float_case(asgi, qi, mni, mxi, use_store):
+    """get_param_as_float against float() of the last occurrence; min_value/max_value honoured exactly (0 is a bound, not 'unset')."""
+    qs = FLOAT_QS[qi]
+    req = _mkreq(asgi, qs, False, False)
+    ref = dict((k, v) for k, v in ref_parse(qs, False, False))
+    last = ref['x'][-1] if isinstance(ref['x'], list) else ref['x']
+    mn, mx = FLOAT_BOUNDS[mni], FLOAT_BOUNDS[mxi]
+    try:
+        val = float(last)
+        exp = ('invalid',) if ((mn is not None and val < mn) or (mx is not None and val > mx)) else ('ok', val)
+    except ValueError:
+        exp = ('invalid',)
+    store = {} if use_store else None
+    try:
+        got = ('ok', req.get_param_as_float('x', min_value=mn, max_value=mx, store=store))
+    except falcon.HTTPInvalidParam:
+        got = ('invalid',)
+    if got != exp:
+        return fail(lambda: 'get_param_as_float on %r (min_value=%r, max_value=%r) -> %r, reference conversion %r' % (qs, mn, mx, got, exp))
+    if use_store and store != ({'x': exp[1]} if exp[0] == 'ok' else {}):
+        return fail(lambda: 'get_param_as_float on %r (min_value=%r, max_value=%r): store = %r after %r' % (qs, mn, mx, store, got))
+    return 1
+
+
 def _getter_part(name, args, pre, call, timeout, bounds):
     src = '''
 def h(%s) -> int:
@@ -518,6 +546,14 @@ def partitions(tier, seed):
             'bool(pick(int(use_default), 0, 1)), pick(which, 0, 1))' % (asgi, len(DATE_QS) - 1), 150,
             'get_param_as_date / get_param_as_datetime on %d query strings (absent, blank, valid, invalid, repeated with a blank occurrence, '
             'CSV) x keep_blank x csv x required x default: finite table through the solver (strptime realizes its input)' % len(DATE_QS)))
+    for asgi in (0, 1):
+        P.append(_getter_part(
+            'float_getters_%s' % ('asgi' if asgi else 'wsgi'), 'qi: int, mni: int, mxi: int, use_store: bool',
+            ['0 <= qi < %d' % len(FLOAT_QS), '0 <= mni < %d and 0 <= mxi < %d' % (len(FLOAT_BOUNDS), len(FLOAT_BOUNDS))],
+            'float_case(%d, pick(qi, 0, %d), pick(mni, 0, %d), pick(mxi, 0, %d), bool(pick(int(use_store), 0, 1)))' % (
+                asgi, len(FLOAT_QS) - 1, len(FLOAT_BOUNDS) - 1, len(FLOAT_BOUNDS) - 1), 150,
+            'get_param_as_float on %d query strings x min_value/max_value in {unset, -1.0, 0, 0.0, 1.5} x store: finite table through '
+            'the solver (float parsing realizes its input); nan/inf spellings outside' % len(FLOAT_QS)))
     for asgi in (0, 1):
         tag = 'asgi' if asgi else 'wsgi'
         P.append(_getter_part(
